@@ -100,43 +100,54 @@ func init() {
 			nb := c.P.Fn("Association.notifyBlockWritable") // may have been inlined
 			bw := c.field("Association", "blockWrite")
 			wp := c.field("Association", "writePending")
-			// the drain test: the outermost test on blockWrite that dominates the notification
-			// (the call of notifyBlockWritable, or — when inlined — the store writePending = false)
-			var drain []*ssa.If
-			for _, g := range c.P.Region(fn) {
-				var notes []ssa.Instruction
-				if nb != nil {
-					for _, ns := range callsIn(g, nb) {
-						notes = append(notes, ns.(ssa.Instruction))
+			// the drain point: inside pop, every If that dominates a notification carrier — the call of
+			// notifyBlockWritable, a call of a helper that (transitively) notifies, or the inlined
+			// store writePending = false — and does not sit in a loop together with a move
+			_ = bw
+			var carriers []ssa.Instruction
+			forEachInstr(fn, func(in ssa.Instruction) {
+				switch x := in.(type) {
+				case ssa.CallInstruction:
+					sc := x.Common().StaticCallee()
+					if sc == nil || !c.P.inPkg(sc) {
+						return
+					}
+					if sc == nb || (nb != nil && len(callsInDeep(sc, nb, 2)) > 0) {
+						carriers = append(carriers, in)
+						return
+					}
+					// helper that lowers the gate itself
+					lowers := false
+					forEachInstrDeep(c.P, sc, 1, func(y ssa.Instruction) {
+						if st, ok := y.(*ssa.Store); ok && fieldOfAddr(st.Addr) == wp && IsConstBool(false)(st.Val) {
+							lowers = true
+						}
+					})
+					if lowers && sc != mv {
+						carriers = append(carriers, in)
+					}
+				case *ssa.Store:
+					if fieldOfAddr(x.Addr) == wp && IsConstBool(false)(x.Val) {
+						carriers = append(carriers, in)
 					}
 				}
-				for _, a := range c.storesIn(g, wp) {
-					if IsConstBool(false)(a.Val) && g == fn {
-						notes = append(notes, a.Instr)
-					}
-				}
-				for _, ns := range notes {
-					for d := ns.Block(); d != nil; d = d.Idom() {
-						if len(d.Instrs) == 0 {
-							continue
-						}
-						if ifi, ok := d.Instrs[len(d.Instrs)-1].(*ssa.If); ok && IsLoadOf(bw)(ifi.Cond) && d.Parent() == fn {
-							drain = append(drain, ifi)
-						}
-					}
+			})
+			moveLoops := map[*ssa.BasicBlock]bool{}
+			for _, ms := range callsIn(fn, mv) {
+				for b := range loopBlocks(ms.(ssa.Instruction).Block()) {
+					moveLoops[b] = true
 				}
 			}
-			if len(drain) == 0 {
-				// the notification lives in a helper: the call to the helper is the drain point
-				forEachInstr(fn, func(in ssa.Instruction) {
-					if ci, ok := in.(ssa.CallInstruction); ok {
-						if sc := ci.Common().StaticCallee(); sc != nil && nb != nil && sc != nb && c.P.inPkg(sc) && len(callsInDeep(sc, nb, 2)) > 0 {
-							if ifi := enclosingIfOn(in, IsLoadOf(bw)); ifi != nil {
-								drain = append(drain, ifi)
-							}
-						}
+			var drain []*ssa.If
+			for _, cr := range carriers {
+				for d := cr.Block(); d != nil; d = d.Idom() {
+					if len(d.Instrs) == 0 || moveLoops[d] {
+						continue
 					}
-				})
+					if ifi, ok := d.Instrs[len(d.Instrs)-1].(*ssa.If); ok && d != cr.Block() {
+						drain = append(drain, ifi)
+					}
+				}
 			}
 			c.Check(len(drain) >= 1, "drain-test", c.P.Pos(fn.Pos()), "the drain test guarding notifyBlockWritable was found", "no drain test (blockWrite … notifyBlockWritable) found in popPendingDataChunksToSend")
 			if len(drain) == 0 {
